@@ -654,6 +654,10 @@ class RestAPI(object):
                     )
                     return aws_error("StateMachineDoesNotExist"), 400
 
+                # Update a copy, so that a request that is subsequently refused
+                # leaves the stored State Machine exactly as it was.
+                state_machine = dict(state_machine)
+
                 role_arn = params.get("roleArn")
                 if role_arn:
                     if not valid_role_arn(role_arn):
